@@ -216,12 +216,8 @@ def clause_naming():
                 vio(bool(m) and (int(m.group(1)), int(m.group(2))) == (c, n), "name.pattern",
                     "label-less name is not recognised as time node (cycle,node) by the time-node group pattern", [c, n, nm])
             else:
-                labelled.append(nm)
-                if m:
-                    matched.setdefault(kind, []).append(nm)
-    for kind, nms in matched.items():
-        vio(False, "name.label-listed", "labelled snapshot group names match the time-node pattern genTimeSteps lists from "
-            "(they would be listed as ordinary (cycle,node) steps)", {"label_kind": kind, "n_names_matching": len(nms), "of": len(pairs), "first": nms[0]})
+                labelled.append(nm)  # what is LISTED for labelled groups is checked on a real file below (the pattern itself
+                # may match them: Database needs it to read (cycle, node) off a labelled name; contract correction, DESIGN section 5)
     vio(sorted(plain) == [getH5GroupName(c, n) for c, n in pairs], "name.order",
         "sorted label-less names are not in chronological (cycle,node) order", "first differing: %r" % next(
             ([a, b] for a, b in zip(sorted(plain), [getH5GroupName(c, n) for c, n in pairs]) if a != b), None))
